@@ -24,6 +24,9 @@
     rerun_converges_partial      upload/copy/delete: rerun after crash+restart leaves exactly the manifest
                                  files of an uninterrupted run, and the invariant
     rerun_converges_pull_partial pull: same, guarded by "the rerun succeeds iff the uninterrupted pull does"
+    rerun_converges_pull         pull, full strength in the prune configuration: the repeated pull SUCCEEDS (honest
+                                 registry serving every layer), manifest files equal the uninterrupted run's, invariant
+  All theorems are stated for `restartWith env` (start-up with or without OLLAMA_NOPRUNE).
   Partial: the pull case of `exec_seqOK`/`crash_safe` assumes `PullPre` (debris of earlier pulls is
   CONSISTENT: a readable part record describes the blob and the bytes it declares complete are in the
   `-partial` file; any store without debris satisfies it, `opOK_of_noDebris`); that crashes of pull
@@ -116,14 +119,13 @@ theorem atomic_manifest_old_or_new {env : Env} (hat : env.atomicMan = true) (op 
   rw [(StoreCrash.restartWith_untouched env n (run p st)).1]
   exact old_or_new (amo_exec env hat op st) hp n
 
-/-- **Fixed variant: no crash ever tears a manifest.**  If `Manifests(false)` succeeds before the
-operation it succeeds after any crash of it (so the start-up prune is never disabled by a crash). -/
-theorem atomic_never_torn {env : Env} (hat : env.atomicMan = true) (op : Op) (st : Store)
+/-- no crash ever tears a manifest (state right after the crash, before the start-up sequence) -/
+theorem atomic_never_torn_run {env : Env} (hat : env.atomicMan = true) (op : Op) (st : Store)
     (hall : allReadable st = true) (p : List Effect) (hp : CrashPrefix (op.exec env st).effs p) :
-    allReadable (restartWith env (run p st)) = true := by
+    allReadable (run p st) = true := by
   rw [allReadable_iff] at hall ⊢
   intro n c hg
-  rcases atomic_manifest_old_or_new hat op st p hp n with h | h
+  rcases old_or_new (amo_exec env hat op st) hp n with h | h
   · rw [h] at hg; exact hall n c hg
   · rw [h] at hg
     rcases final_man env hat op st n with h' | ⟨m, h'⟩ | ⟨_, h'⟩ | ⟨src, c', _, hsrc, h'⟩
@@ -131,6 +133,17 @@ theorem atomic_never_torn {env : Env} (hat : env.atomicMan = true) (op : Op) (st
     · rw [h'] at hg; injection hg with hg; exact ⟨m, hg.symm⟩
     · rw [h'] at hg; cases hg
     · rw [h'] at hg; injection hg with hg; subst hg; exact hall src c' hsrc
+
+/-- **Fixed variant: no crash ever tears a manifest.**  If `Manifests(false)` succeeds before the
+operation it succeeds after any crash of it (so the start-up prune is never disabled by a crash). -/
+theorem atomic_never_torn {env : Env} (hat : env.atomicMan = true) (op : Op) (st : Store)
+    (hall : allReadable st = true) (p : List Effect) (hp : CrashPrefix (op.exec env st).effs p) :
+    allReadable (restartWith env (run p st)) = true := by
+  have h := atomic_never_torn_run hat op st hall p hp
+  rw [allReadable_iff] at h ⊢
+  intro n c hg
+  rw [(StoreCrash.restartWith_untouched env n (run p st)).1] at hg
+  exact h n c hg
 
 /-- **Fixed variant: the replaced model is never lost.**  A name that was readable before the
 operation is readable after any crash of it (unless the operation is the deletion of that name) —
@@ -250,6 +263,36 @@ theorem rerun_converges_pull_partial {env : Env} (hat : env.atomicMan = true)
     simp only [hc, cond_false, or_self] at G ⊢
     exact G
 
+/-- **Fixed variant, clause 3 for pull at full strength (prune configuration).**  Store with the
+invariant and all manifests readable, honest registry that serves every layer of the manifest,
+consistent debris, the uninterrupted pull succeeds.  Kill the pull anywhere (any prefix, last data
+write cut at any byte), run the start-up sequence, pull again: the repeated pull SUCCEEDS, every
+manifest file is exactly what the uninterrupted pull leaves, and the result satisfies the invariant. -/
+theorem rerun_converges_pull {hash : Bytes → Digest} {env : Env} (henv : EnvOK hash env)
+    (hat : env.atomicMan = true) (hnp : env.noPrune = false) {st : Store} (hinv : Inv hash st)
+    (hall : allReadable st = true) (reg : Digest → Option Bytes) (n : Name) (m : Man)
+    (hreg : ∀ d data, reg d = some data → hash data = d)
+    (htot : ∀ l ∈ m.all, (reg l.digest).isSome = true)
+    (hpre : PullPre reg st (m.all.map Layer.digest))
+    (hok : ((Op.pull reg n m).exec env st).ok = true)
+    (p : List Effect) (hp : CrashPrefix ((Op.pull reg n m).exec env st).effs p) :
+    ((Op.pull reg n m).exec env (restartWith env (run p st))).ok = true ∧
+    (∀ n', get (run ((Op.pull reg n m).exec env (restartWith env (run p st))).effs (restartWith env (run p st))) (.man n') =
+           get (run ((Op.pull reg n m).exec env st).effs st) (.man n')) ∧
+    Inv hash (run ((Op.pull reg n m).exec env (restartWith env (run p st))).effs (restartWith env (run p st))) := by
+  have hcs := crash_safe henv hinv (.pull reg n m) ⟨hreg, hpre⟩ p hp
+  have hallp := atomic_never_torn_run hat (.pull reg n m) st hall p hp
+  have hdeb : NoPullDebris (restartWith env (run p st)) := by
+    unfold restartWith restart
+    simp only [hnp, Bool.false_eq_true, ↓reduceIte, hallp]
+    exact noDebris_prune _
+  have hok1 : ((Op.pull reg n m).exec env (restartWith env (run p st))).ok = true :=
+    pull_ok env henv.hash_eq henv.chunk_flatten reg hreg n m htot _ hcs.2.1 hdeb
+  refine ⟨hok1, ?_, ?_⟩
+  · exact rerun_converges_pull_partial hat reg n m st p hp (hok1.trans hok.symm)
+  · exact StoreCrash.seq_preserves_inv hcs.2.1
+      (exec_seqOK henv hcs.2.1 (.pull reg n m) (opOK_of_noDebris reg n m hreg hdeb))
+
 /-! ## witnesses of the defects the model shares with the code (F19) -/
 
 def wHash : Bytes → Digest := fun bs => if bs = [1] then "d1" else if bs = [2] then "d2" else "x"
@@ -323,5 +366,34 @@ example : OpOK wHash wStoreTorn' wPull := by
 
 /-- and the pull of the example really has effects (a download, a manifest write) -/
 example : (wPull.exec wEnv wStoreTorn').effs.length = 11 ∧ (wPull.exec wEnv wStoreTorn').ok = true := by decide
+
+/-- the fixed variant of the environment, and a store on which `rerun_converges_pull` applies:
+its hypotheses are satisfiable by a pull that really downloads (fixed variant: 17 effects) -/
+def wEnvA : Env := { wEnv with atomicMan := true, atomicPart := true }
+def wStoreA : Store := [(.blob "d1", .raw [1]), (.man "a", .man wMan1)]
+
+example : EnvOK wHash wEnvA := ⟨rfl, fun bs => by simp [wEnvA, wEnv], fun _ _ h => h⟩
+
+example : Inv wHash wStoreA ∧ allReadable wStoreA = true ∧ NoPullDebris wStoreA ∧
+    (∀ l ∈ wMan2.all, (wReg l.digest).isSome = true) ∧
+    (wPull.exec wEnvA wStoreA).ok = true ∧ (wPull.exec wEnvA wStoreA).effs.length = 17 := by
+  refine ⟨⟨?_, ?_⟩, by decide, ?_, by decide, by decide, by decide⟩
+  · intro d c h
+    simp [wStoreA, StoreCrash.get] at h
+    obtain ⟨hd, hc⟩ := h
+    subst hd; subst hc
+    exact ⟨[1], rfl, by decide⟩
+  · intro n m hr l hl
+    rw [readable_eq_some] at hr
+    simp only [wStoreA, StoreCrash.get, reduceCtorEq, ↓reduceIte] at hr
+    by_cases ha : Path.man "a" = Path.man n
+    · simp only [ha, ↓reduceIte] at hr
+      injection hr with hr; injection hr with hr; subst hr
+      simp only [wMan1, Man.all, List.nil_append, List.mem_singleton] at hl
+      subst hl; decide
+    · simp [ha] at hr
+  · intro d
+    refine ⟨?_, fun k => ?_⟩ <;>
+    · simp [wStoreA, StoreCrash.get]
 
 end OllamaVerif.C12
